@@ -230,7 +230,7 @@ func mutate(rnd *hlib.Rand, c *chain, g *Group, last Asg, good bool) string {
 		}
 		return "same"
 	case 4, 5:
-		m := Member{Name: "m" + strconv.Itoa(c.nextID), UD: UserData{Kind: "-"}}
+		m := Member{Name: "j" + strconv.Itoa(c.nextID), UD: UserData{Kind: "-"}} // "j…": cannot collide with a generated member name
 		c.nextID++
 		if c.identical || rnd.Bool() {
 			m.Topics = append([]string(nil), g.Members[rnd.Intn(len(g.Members))].Topics...)
@@ -288,7 +288,7 @@ func mutate(rnd *hlib.Rand, c *chain, g *Group, last Asg, good bool) string {
 		}
 		return "other"
 	case 10: // a new topic appears, some members subscribe
-		name := "t" + strconv.Itoa(c.nextID)
+		name := "n" + strconv.Itoa(c.nextID) // cannot collide with a generated topic name
 		c.nextID++
 		g.Topics = append(g.Topics, Topic{Name: name, Parts: seqParts(rnd.Range(1, 5))})
 		for i := range g.Members {
